@@ -463,9 +463,19 @@ func c17(c *ev.Ctx) {
 				sec = []int64{0, -1, 1, 86399, 86400, -86400, 951782400, 1709164800, 4102444800, -2147483648, 8589934592, 1711846800, 1698541200}[r.Intn(13)]
 			case 1:
 				sec = -2147483648 + r.Int63n(2147483648)
+			case 2:
+				// anywhere in the years 1 to 9999, and the edges of what nanoseconds since the
+				// epoch can express (1677 / 2262)
+				sec = -62135596800 + r.Int63n(253402300799+62135596800)
+				if r.Intn(4) == 0 {
+					sec = []int64{-62135596800, -9223372037, -9223372036, 9223372036, 9223372037, 253402300799, -11644473600}[r.Intn(7)]
+				}
 			default:
 				sec = r.Int63n(8589934592)
 			}
+			// a host time.Time also carries a fraction of a second: the script sees the whole
+			// seconds, rounded down
+			nsec := []int64{0, 1, 500000000, 999999999}[r.Intn(4)]
 			ts := time.Unix(sec, 0).In(loc)
 			h, mi, s := ts.Clock()
 			y, mo, d := ts.Date()
@@ -474,7 +484,19 @@ func c17(c *ev.Ctx) {
 			if k%2 == 0 {
 				o = evr.Exec(map[string]interface{}{"T": int(sec)})
 			} else {
-				o = evr.Exec(map[string]interface{}{"T": time.Unix(sec, 0)})
+				switch k % 6 {
+				case 1:
+					o = evr.Exec(map[string]interface{}{"T": time.Unix(sec, nsec)})
+				case 3:
+					o = evr.Exec(struct{ T time.Time }{time.Unix(sec, nsec)})
+				default:
+					// a member of a host slice takes another conversion path
+					o = evr.Exec(map[string]interface{}{"L": []time.Time{time.Unix(sec, nsec)}, "T": 0})
+					if o.Err == nil {
+						evl, _ := eng.New(`T = L[0]; `+script, eng.Options{})
+						o = evl.Exec(map[string]interface{}{"L": []time.Time{time.Unix(sec, nsec)}})
+					}
+				}
 			}
 			c.Case(fmt.Sprint(zone, sec), true)
 			checked++
